@@ -182,7 +182,12 @@ void vprop_case (VChoices *c, VResult *r)
   p = ps_build (&ps);
   res = orc_program_compile_full (p, target, flags);
   v_desc (r, "# compile result: %s\n", v_result_name (res));
-  if (v_arg ("dump", NULL) && p->asm_code) fprintf (stderr, "%s\n", p->asm_code);
+  if (v_arg ("dump", NULL) && p->asm_code) {
+    FILE *f = fopen ("/tmp/c01_dump.s", "w");
+    if (f) { fprintf (f, "%s\n", p->asm_code); fclose (f); }
+    f = fopen ("/tmp/c01_dump.bin", "wb");
+    if (f && p->orccode) { fwrite (p->orccode->code, 1, (size_t) p->orccode->code_size, f); fclose (f); }
+  }
   if (!ORC_COMPILE_RESULT_IS_SUCCESSFUL (res)) {
     r->verdict = V_DISCARD;
     r->hash = h;
